@@ -147,7 +147,7 @@ def install_seq_support(env):
             return NotImplemented
         v = it.eval(e.elt, cfr)
         made = [t for t in it.st.trace[before:] if t[0] == 'CALL']
-        del it.st.trace[before:]
+        it.st.trace[before:] = [t for t in it.st.trace[before:] if t[0] != 'CALL']
         m = MappedSeq(src, i, v, [c[1] for c in made], isinstance(e, ast.ListComp))
         it.st.effect('MAP', mapped=m)
         return m
